@@ -137,6 +137,10 @@ func generate(prop string, seed uint64, run int, tier string) *Scenario {
 
 	if sc.FO != nil && sc.FO.Cfg.Logger {
 		sc.FO.Cfg.LogMask = mask
+
+		if prop == "C04" && run%8 == 3 && mask != 0 && mask&8 == 0 {
+			sc.FO.Cfg.LogMask = 0 // the waiters family needs the debug level
+		}
 	}
 
 	if sc.BE != nil && sc.BE.Cfg.Logger {
